@@ -6,7 +6,8 @@
    (generation loop, task loop, post-processing) while the per-element machinery is REUSED from MapRun.v /
    MapSpec.v unchanged: func_shape, func_kwargs, select_kwargs, output_key, sto_dump, sto_array.
 
-   WHAT IS MODELLED (the code after the C13 fix "persist memory-based storage also when the map fails"):
+   WHAT IS MODELLED (the code after the C13 fixes "persist memory-based storage also when the map fails" and
+   "keep the results that completed before a function raised"):
      run_map / run_map_async : for gen in topological_generations: _run_and_process_generation(gen); an exception
                                leaves the loop (no later generation is submitted); _maybe_persist_memory runs in
                                any case, so every storage backend is readable from the run folder afterwards
@@ -21,8 +22,9 @@
      _process_generation     : for func in gen (in order): Future.result() per task in submission order -- the first
                                failing task re-raises; otherwise _output_from_mapspec_task (dumps the elements of
                                storages without dump_in_subprocess) / _dump_single_output (writes the single value)
-   Consequences mirrored below: in the sequential path nothing of the failing generation is post-processed; with an
-   executor the functions listed before the failing one in that generation are.
+   When a task fails, the results that completed BEFORE it in submission order are still post-processed (repaired
+   code, see `salvage` below): on both paths the functions listed before the failing one, and the elements of the
+   failing function before the failing index.
 
    The order of the functions inside a generation (networkx insertion order) is an INPUT of the model
    (`gens : list (list mfunc)`); the theorems hold for every such order.
@@ -171,11 +173,32 @@ Section FMap.
     | f :: fs' => do st' <- post_func rs st f; post_funcs rs fs' st'
     end.
 
-  (* the functions of the generation listed before f *)
-  Fixpoint funcs_before (f : mfunc) (fs : list mfunc) : list mfunc :=
-    match fs with
+  (* ---------- a task of the generation failed: keep what completed before it ----------
+     (repaired code, fix "keep the results that completed before a function raised": the except branches of
+     _maybe_parallel_map / _submit_generation on the sequential path, of _process_task / _process_task_async and the
+     ordinary _process_generation of the functions listed before the failing one with an executor).
+     `done` = the results that precede the first failing task in submission order: every task of the functions listed
+     before the failing function, and the elements of the failing function before the failing index.  For each
+     function the same store operations as in post_func are performed on what it has in `done`; an error of these
+     operations is raised from inside the handler and replaces the user's exception. *)
+  Fixpoint take_done (rs : list (task * tres)) : list (task * tres) :=
+    match rs with
+    | tr :: tl => if is_done (snd tr) then tr :: take_done tl else []
     | [] => []
-    | g :: t => if str_eqb (fname g) (fname f) then [] else g :: funcs_before f t
+    end.
+
+  Definition salvage (done : list (task * tres)) (s : store_t) (f : mfunc) : result store_t :=
+    let mine := filter (same_func f) done in
+    if is_mapped f then (if dump_sub then Ok s else post_elems mine s)
+    else match mine with
+         | [(_, TDone outs)] => dump_single (combine (fouts f) outs) s
+         | _ => Ok s
+         end.
+
+  Fixpoint salvage_all (done : list (task * tres)) (fs : list mfunc) (s : store_t) : result store_t :=
+    match fs with
+    | [] => Ok s
+    | f :: fs' => do s' <- salvage done s f; salvage_all done fs' s'
     end.
 
   (* ---------- one generation ---------- *)
@@ -205,10 +228,9 @@ Section FMap.
         let '(st1, rs) := exec_tasks ts st in
         match first_fail rs with
         | Some (t, r) =>
-            let processed := if stop then [] else funcs_before (t_f t) gen in
-            match post_funcs rs processed st1 with
-            | Ok st2 => (st2, rs, Some (failure_of r))
-            | Err e => (st1, rs, Some (failure_of r))
+            match salvage_all (take_done rs) gen (m_store st1) with
+            | Ok s2 => ({| m_env := m_env st1; m_store := s2; m_log := m_log st1 |}, rs, Some (failure_of r))
+            | Err e => (st1, rs, Some (FailLib e))
             end
         | None =>
             match post_funcs rs gen st1 with
